@@ -338,6 +338,26 @@ def _same(new, old):
     return S.same_value(new, old)
 
 
+def _allones_flags(td, i):
+    """per value of source subset i: does the value coincide with an all-ones pattern of its field?  A compressed column
+    can hold such a value (minimum + increment); once the subset is stored alone (or uncompressed) the same bits ARE the
+    missing value -- the identification the statement makes.  The width in force is not known here (operators), so any
+    width >= 2 counts; this only ever relaxes the comparison of such a value with None."""
+    out = []
+    for d, v in zip(td.decoded_descriptors_all_subsets[i], td.decoded_values_all_subsets[i]):
+        flag = False
+        if isinstance(v, (int, float)) and not isinstance(v, bool):
+            try:
+                raw = int(round(v * 10 ** getattr(d, 'scale', 0))) - getattr(d, 'refval', 0)
+                flag = raw >= 3 and (raw + 1) & raw == 0
+                if not flag and isinstance(v, int):
+                    flag = v >= 3 and (v + 1) & v == 0
+            except Exception:
+                flag = False
+        out.append(flag)
+    return out
+
+
 def run_corpus(msgs):
     p = Partial()
     dec, enc = CC.decoder(), CC.encoder()
@@ -383,9 +403,11 @@ def run_corpus(msgs):
                 p.violation('corpus-result-undecodable', case, st2[2][:160])
                 continue
             src = [st[1][i] for i in want]
+            flags = [_allones_flags(msg.template_data.value, i) for i in want]
             ok = len(st2[1]) == len(src) and all(
-                a[0] == b[0] and len(a[1]) == len(b[1]) and all(_same(x, y) for x, y in zip(a[1], b[1])) and a[2] == b[2]
-                for a, b in zip(st2[1], src))
+                a[0] == b[0] and len(a[1]) == len(b[1]) and a[2] == b[2] and
+                all(_same(x, y) or (x is None and fl) for x, y, fl in zip(a[1], b[1], f))
+                for a, b, f in zip(st2[1], src, flags))
             p.outcome((msg.is_compressed.value, len(want), len(coll)))
             if not ok:
                 p.violation('corpus-content' + ('|repeats' if len(want) < len(coll) else ''), case,
@@ -482,7 +504,9 @@ def main(tier, seed):
                 'collection length, distinct indices, collection type)')
     rep.trusted_base = ['mc.ref.codec / mc.ref.message: the content of every source subset and the expected result message '
                         'are built by the reference model']
-    rep.assumptions = ['empty collections are outside the quantifier', 'refusal may be any exception raised by subset()',
+    rep.assumptions = ['corpus part: a source value that coincides with an all-ones pattern (possible in a compressed column as '
+                       'minimum + increment) may read back as missing after subsetting -- the identification the statement makes',
+                       'empty collections are outside the quantifier', 'refusal may be any exception raised by subset()',
                        'source messages the implementation does not decode as the reference expects are skipped here '
                        '(counted; they are C01 violations)']
     items = item_pool(tier)
